@@ -57,18 +57,18 @@ ItemT(it) == [cfg |-> [feed |-> TRUE, adj |-> it.tc.adj, dev |-> it.tc.dev], ots
               slot |-> it.fd.slot, p |-> [minv |-> 0, minm |-> 0, maxv |-> 0, maxm |-> 0],
               ref |-> [some |-> TRUE, v |-> it.fd.price, m |-> it.tc.mult]]
 SeenP(s) == [minv |-> s.min, minm |-> 0, maxv |-> s.max, maxm |-> 0]       \* unit prices
-MonWAccepted(e) ==
-  e.called =>
-    /\ Len(e.seen) = Len(e.items)
-    /\ \A i \in DOMAIN e.items :
-         LET it == e.items[i] t == ItemT(it) s == e.seen[i] r == U(it.fd.price, it.tc.mult) IN
-           /\ it.known /\ it.tc.enabled
-           /\ it.fd.provider = it.tc.expected /\ it.fd.feedId = it.tc.feedIdOf
-           /\ s.min > 0 /\ s.min <= s.max
-           /\ Fresh(e.vs, t)
-           /\ it.tc.dev # 0 =>
-                (AbsDiff(s.max, r) <= TolDev(r, it.tc.dev, it.tc.mult) /\ AbsDiff(s.min, r) <= TolDev(r, it.tc.dev, it.tc.mult))
-    /\ SeqMax(e.items, LAMBDA it : it.fd.ts - it.tc.adj) - SeqMin(e.items, LAMBDA it : it.fd.ts - it.tc.adj) <= e.vs.range
+WTol(it) == TolDev(U(it.fd.price, it.tc.mult), it.tc.dev, it.tc.mult)
+WAll(e, P(_, _)) == e.called => \A i \in DOMAIN e.items : i <= Len(e.seen) => P(e.items[i], e.seen[i])
+MonWCount(e)      == e.called => Len(e.seen) = Len(e.items)
+MonWExpected(e)   == WAll(e, LAMBDA it, s : it.known /\ it.tc.enabled /\ it.fd.provider = it.tc.expected
+                                             /\ it.fd.feedId = it.tc.feedIdOf)
+MonWWellFormed(e) == WAll(e, LAMBDA it, s : s.min > 0 /\ s.min <= s.max)
+MonWFresh(e)      == WAll(e, LAMBDA it, s : Fresh(e.vs, ItemT(it)))
+MonWInBand(e)     == WAll(e, LAMBDA it, s : it.tc.dev # 0 =>
+                       (AbsDiff(s.max, U(it.fd.price, it.tc.mult)) <= WTol(it) /\ AbsDiff(s.min, U(it.fd.price, it.tc.mult)) <= WTol(it)))
+MonWSpread(e)     == (e.called /\ Len(e.items) > 0) =>
+  SeqMax(e.items, LAMBDA it : it.fd.ts - it.tc.adj) - SeqMin(e.items, LAMBDA it : it.fd.ts - it.tc.adj) <= e.vs.range
+MonWAccepted(e) == MonWCount(e) /\ MonWExpected(e) /\ MonWWellFormed(e) /\ MonWFresh(e) /\ MonWInBand(e) /\ MonWSpread(e)
 (* the wrapped operation's result is passed through *)
 MonWResult(e) == e.called => (e.res = "ok") = e.f_ok
 ConformsWith(e) ==
